@@ -44,7 +44,9 @@ mod verif_spy {
         unsafe { SINK = Some(s); }
         s
     }
-    static BYTES: [u8; 3] = [b'a', b'b', b'c'];
+    // the metric text starts and (at full length) ends with a blank: a sink hands the metric over as it is,
+    // it does not trim or otherwise normalise it
+    static BYTES: [u8; 3] = [b' ', b'b', b' '];
     fn any_metric() -> (&'static str, usize) {
         let n: usize = kani::any();
         kani::assume(n >= 1 && n <= 3);
@@ -63,7 +65,7 @@ mod verif_spy {
         assert!(CALLS.load(Ordering::SeqCst) == 0, "[C19] a metric that fits is buffered, nothing is sent");
         assert!(s.flush().is_ok(), "[C06] flush succeeds when the socket accepts");
         assert!(CALLS.load(Ordering::SeqCst) == 1 && LEN.load(Ordering::SeqCst) == n + 1, "[C06,C12] flush hands the whole line (metric + newline) to the socket in ONE write");
-        assert!(FIRST.load(Ordering::SeqCst) == b'a' as usize && LAST.load(Ordering::SeqCst) == b'\n' as usize, "[C05,C13] the datagram is the metric followed by a single newline");
+        assert!(FIRST.load(Ordering::SeqCst) == b' ' as usize && LAST.load(Ordering::SeqCst) == b'\n' as usize, "[C05,C13] the datagram is the metric, byte for byte (leading and trailing blanks included), followed by a single newline");
         assert!(s.flush().is_ok() && CALLS.load(Ordering::SeqCst) == 1, "[C06] flushing again writes nothing");
         kani::cover!(n == 3, "3-byte metric");
         std::mem::forget(r); std::mem::forget(rx); std::mem::forget(s);
@@ -82,7 +84,7 @@ mod verif_spy {
         assert!(s.writer.try_lock().is_ok(), "[C12] the sink's lock is released when emit returns");
         assert!(s.flush().is_ok(), "[C06] flush succeeds when the socket accepts");
         assert!(CALLS.load(Ordering::SeqCst) == 1 && LEN.load(Ordering::SeqCst) == n + 1, "[C06,C12] flush hands the whole line (metric + newline) to the socket in ONE write");
-        assert!(FIRST.load(Ordering::SeqCst) == b'a' as usize && LAST.load(Ordering::SeqCst) == b'\n' as usize, "[C05,C13] the datagram is the metric followed by a single newline");
+        assert!(FIRST.load(Ordering::SeqCst) == b' ' as usize && LAST.load(Ordering::SeqCst) == b'\n' as usize, "[C05,C13] the datagram is the metric, byte for byte (leading and trailing blanks included), followed by a single newline");
         assert!(LOCK_HELD_DURING_WRITE.load(Ordering::SeqCst) == 1 && UNLOCKED_WRITES.load(Ordering::SeqCst) == 0, "[C12] the socket is only written while the sink's lock is held (whole write/flush calls are serialised)");
         assert!(s.writer.try_lock().is_ok(), "[C12] the sink's lock is released when flush returns");
         assert!(s.flush().is_ok() && CALLS.load(Ordering::SeqCst) == 1, "[C06] flushing again writes nothing");
